@@ -145,7 +145,7 @@ def jobs(tier):
         if N <= 3:
             J.append(dict(harness=('c01', 'h_assoc'), params=dict(N=N)))
         elif N == 4:
-            J.append(dict(harness=('c01', 'h_assoc'), params=dict(N=N), timeout_s=900, claimed=False, label='stretch:h_assoc{"N": 4}'))
+            J.append(dict(harness=('c01', 'h_assoc'), params=dict(N=N), timeout_s=600, wall_s=1300, claimed=False, label='stretch:h_assoc{"N": 4}'))
         J.append(dict(harness=('c01', 'h_square'), params=dict(N=N)))
     for N in range(1, (3 if tier == 'quick' else 4) + 1):
         for L in range(1, (2 if tier == 'quick' else 3) + 1):
